@@ -106,6 +106,11 @@ type c18ApiIn struct {
 	V0      int64     `json:"v0"` // 0 = version key absent
 	Init    []c18Obj  `json:"init"`
 	Gs      [][]c18Op `json:"gs"` // one list per client goroutine
+	// conc-real only: a further (throw-away) member takes the cluster config lock exactly as a mutating
+	// handler does (Server.Lock) before the clients start and keeps it for HoldMs; requests "purge"
+	// (DELETE /status/members/{that member}) target it. While it holds, no request that needs the lock
+	// may complete.
+	HoldMs int `json:"hold_ms"`
 }
 
 type c18OpObs struct {
@@ -125,6 +130,7 @@ type c18ApiObs struct {
 	Final    []c18Obj   `json:"final"`
 	FinalVer int64      `json:"final_ver"`
 	Err      string     `json:"err"`
+	Holds    [][2]int64 `json:"holds"` // [stamp after Lock returned, stamp before Unlock] of the extra member
 }
 
 // ---- in-memory cluster
@@ -292,7 +298,7 @@ func c18NewSrv(cls cluster.Cluster) *c18Srv {
 	r.Use(m.newAPILogger)
 	r.Use(m.newConfigVersionAttacher)
 	r.Use(m.newRecoverer)
-	for _, e := range append(s.objectAPIEntries(), s.customDataAPIEntries()...) {
+	for _, e := range append(append(s.objectAPIEntries(), s.customDataAPIEntries()...), s.memberAPIEntries()...) {
 		path := APIPrefix + e.Path
 		switch e.Method {
 		case "GET":
@@ -312,6 +318,10 @@ type c18RealEnv struct {
 	dir     string
 	members []cluster.Cluster
 	srvs    []*c18Srv
+
+	clusterName string
+	peerURLs    []string
+	extraSeq    int
 }
 
 func c18StartReal() *c18RealEnv {
@@ -330,18 +340,27 @@ func c18StartReal() *c18RealEnv {
 	}
 	e := &c18RealEnv{dir: dir, members: []cluster.Cluster{p}}
 	// a second member: secondary role, own lease / session, same etcd
+	e.clusterName, e.peerURLs = opt.ClusterName, opt.Cluster.InitialAdvertisePeerURLs
+	e.members = append(e.members, e.newSecondary("c18-api-secondary"))
+	for _, m := range e.members {
+		e.srvs = append(e.srvs, c18NewSrv(m))
+	}
+	return e
+}
+
+func (e *c18RealEnv) newSecondary(name string) cluster.Cluster {
 	ports, err := freeport.GetFreePorts(1)
 	if err != nil {
 		panic(err)
 	}
 	o2 := option.New()
-	o2.Name = "c18-api-secondary"
-	o2.ClusterName = opt.ClusterName
+	o2.Name = name
+	o2.ClusterName = e.clusterName
 	o2.ClusterRole = "secondary"
 	o2.ClusterRequestTimeout = "10s"
-	o2.Cluster.PrimaryListenPeerURLs = opt.Cluster.InitialAdvertisePeerURLs
+	o2.Cluster.PrimaryListenPeerURLs = e.peerURLs
 	o2.APIAddr = fmt.Sprintf("localhost:%d", ports[0])
-	o2.HomeDir = dir + "/secondary"
+	o2.HomeDir = e.dir + "/" + name
 	if _, err := o2.Parse(); err != nil {
 		panic(err)
 	}
@@ -350,11 +369,7 @@ func c18StartReal() *c18RealEnv {
 	if err != nil {
 		panic(err)
 	}
-	e.members = append(e.members, s2)
-	for _, m := range e.members {
-		e.srvs = append(e.srvs, c18NewSrv(m))
-	}
-	return e
+	return s2
 }
 
 func (e *c18RealEnv) close() {
@@ -402,6 +417,9 @@ func c18CustomRequest(op c18Op) *http.Request {
 }
 
 func c18Request(op c18Op) *http.Request {
+	if op.Op == "purge" { // Name is filled in by c18Exec: the member that holds the lock
+		return httptest.NewRequest("DELETE", APIPrefix+"/status/members/"+op.Name, nil)
+	}
 	if c18IsCustom(op.Op) {
 		return c18CustomRequest(op)
 	}
@@ -494,6 +512,31 @@ func c18Exec(in c18ApiIn, real *c18RealEnv) (obs c18ApiObs) {
 	var clock int64
 	var mu sync.Mutex
 	var wg sync.WaitGroup
+	holderName := "c18-no-such-member"
+	var release func()
+	if in.HoldMs > 0 && in.Mode == "conc-real" {
+		real.extraSeq++
+		holderName = fmt.Sprintf("c18-extra-%d", real.extraSeq)
+		extra := real.newSecondary(holderName)
+		xs := c18NewSrv(extra)
+		defer func() { // the member stays alive (purgeable) until all clients are done
+			cw := &sync.WaitGroup{}
+			cw.Add(1)
+			extra.Close(cw)
+		}()
+		xs.s.Lock() // what createObject / updateObject / deleteObject / purgeMember do first
+		acq := atomic.AddInt64(&clock, 1)
+		release = func() {
+			defer func() {
+				if p := recover(); p != nil {
+					obs.Err = fmt.Sprintf("holder unlock: %v", p)
+				}
+			}()
+			time.Sleep(time.Duration(in.HoldMs) * time.Millisecond)
+			obs.Holds = append(obs.Holds, [2]int64{acq, atomic.AddInt64(&clock, 1)})
+			xs.s.Unlock()
+		}
+	}
 	for gi, ops := range in.Gs {
 		wg.Add(1)
 		go func(gi int, ops []c18Op) {
@@ -519,6 +562,9 @@ func c18Exec(in c18ApiIn, real *c18RealEnv) (obs c18ApiObs) {
 							flt.reset(0)
 						}
 					}()
+					if op.Op == "purge" {
+						op.Name = holderName
+					}
 					req := c18Request(op)
 					w := httptest.NewRecorder()
 					o.Call = atomic.AddInt64(&clock, 1)
@@ -541,6 +587,9 @@ func c18Exec(in c18ApiIn, real *c18RealEnv) (obs c18ApiObs) {
 				mu.Unlock()
 			}
 		}(gi, ops)
+	}
+	if release != nil {
+		release()
 	}
 	done := make(chan struct{})
 	go func() { wg.Wait(); close(done) }()
@@ -633,6 +682,15 @@ func c18GenApi(r *vfRand, mode string, adv bool) c18ApiIn {
 		}
 		in.Gs = append(in.Gs, ops)
 	}
+	// another member sits in its critical section while the clients run; some of them try to purge it
+	if mode == "conc-real" && r.Chance(1, 5) {
+		in.HoldMs = r.PickInt(150, 250, 350)
+		for g := range in.Gs {
+			if g == 0 || r.Chance(1, 3) {
+				in.Gs[g] = append([]c18Op{{Op: "purge", M: r.Intn(in.Members)}}, in.Gs[g]...)
+			}
+		}
+	}
 	// the other admin API that writes to the cluster: custom-data kinds and items, mixed in between (and
 	// concurrently with) the object mutations
 	if r.Chance(1, 3) || (adv || mode == "conc-real") && r.Chance(1, 3) {
@@ -673,7 +731,7 @@ func c18GenApi(r *vfRand, mode string, adv bool) c18ApiIn {
 			g := r.Intn(len(in.Gs))
 			i := r.Intn(len(in.Gs[g]))
 			op := &in.Gs[g][i]
-			if c18IsCustom(op.Op) || try < 4 && (op.Op == "get" || op.Bad != "") {
+			if c18IsCustom(op.Op) || op.Op == "purge" || try < 4 && (op.Op == "get" || op.Bad != "") {
 				continue // never a custom-data request; prefer a mutation: only there a fault can separate object write and version write
 			}
 			op.Fault = r.PickInt(1, 2, 3, 4, 4, 4, 5, 5)
